@@ -320,6 +320,12 @@ def pred_pf2_normalise(inp):
     return None
 
 
+def _flat3(g):
+    """a core (r1, *mid, r2) with its middle modes merged: the chain product only sees G[:, js, :]"""
+    g = np.asarray(g)
+    return g.reshape(g.shape[0], -1, g.shape[-1])
+
+
 def pred_pad_tt(inp):
     from tensorly.tt_tensor import pad_tt_rank
     cores, npad, pb, ring = inp["cores"], inp["n_padding"], inp["pad_boundaries"], inp["ring"]
@@ -332,9 +338,9 @@ def pred_pad_tt(inp):
     for i, (g, g2) in enumerate(zip(keep, out)):
         l = npad if (pb or i > 0) else 0
         r = npad if (pb or i < n - 1) else 0
-        if g2.shape != (g.shape[0] + l, g.shape[1], g.shape[2] + r):
+        if g2.shape != (g.shape[0] + l,) + tuple(g.shape[1:-1]) + (g.shape[-1] + r,):
             return f"core {i}: ranks {g.shape} -> {g2.shape}, expected +{l}/+{r}"
-    if not close(dense_tt(out, ring), dense_tt(keep, ring), exact=is_int(*cores)):
+    if not close(dense_tt([_flat3(g) for g in out], ring), dense_tt([_flat3(g) for g in keep], ring), exact=is_int(*cores)):
         return "pad_tt_rank changed the represented tensor"
     return None
 
@@ -458,35 +464,7 @@ def pred_cp_flip_sign_form(inp):
     return None
 
 
-def _form(f):
-    i = f.get("inputs") or {}
-    return bool(i.get("is_class")), bool(i.get("copy")), bool(i.get("w_none"))
-
-
-CLASSIFIERS = {
-    # exactly the three crash classes of known_findings.d/C04.json; anything else on these entry points stays a violation
-    "cp_mode_dot_tuple_inplace": lambda f: f["predicate"] == "cp_mode_dot_form" and not _form(f)[0] and not _form(f)[1]
-        and "AttributeError" in f["message"] and "'shape'" in f["message"],
-    "cp_mode_dot_tuple_none_weights": lambda f: f["predicate"] == "cp_mode_dot_form" and not _form(f)[0] and _form(f)[1] and _form(f)[2]
-        and "ValueError" in f["message"] and "len(weights)=()" in f["message"],
-    "cp_flip_sign_tuple_none_weights": lambda f: f["predicate"] == "cp_flip_sign_form" and not _form(f)[0] and _form(f)[2]
-        and "TypeError" in f["message"] and "NoneType" in f["message"],
-}
-
-
-def _load_known_with_snippet(prop):
-    """common.load_known reads the merged known_findings.json (written by the coordinator's mkmanifest);
-    until that has been regenerated, the entries of known_findings.d/C04.json are added here"""
-    import json, os
-    base = _orig_load_known(prop)
-    p = os.path.join(C.VERIF, "known_findings.d", f"{prop}.json")
-    if os.path.exists(p):
-        have = {k.get("id") for k in base}
-        base = base + [k for k in json.load(open(p)).get("findings", []) if k.get("property") == prop and k.get("id") not in have]
-    return base
-
-
-_orig_load_known = C.load_known
+CLASSIFIERS = {}      # no known finding is open for C04 (the three operand-form crashes were repaired in /repo 98aff0c, 85a028b)
 
 
 PRED = {"cp_mode_dot_form": pred_cp_mode_dot_form, "cp_flip_sign_form": pred_cp_flip_sign_form,
@@ -625,7 +603,8 @@ def zcp_res(st, w, fs):
 
 # ----------------------------------------------------------------------------- case shards, robust against a loaded machine
 def run_shards(chk, cases, shard=300):
-    """common.run_case_shards + serial re-runs of shards whose coqc was killed (OOM killer / timeout on the shared machine).
+    """common.run_case_shards (which retries a killed shard once itself) + further serial re-runs of shards whose coqc was
+    killed again (OOM killer / timeout on the shared machine).
     A shard that is killed three times is counted as skipped (note in the evidence), never as a verdict;
     a shard that coqc rejects (rc 1: malformed literal, type error) stays broken."""
     import re, time
@@ -656,9 +635,6 @@ def run_shards(chk, cases, shard=300):
 def run(chk):
     rng = random.Random(chk.seed)
     chk.build_proofs()
-    # common.print_assumptions also captures the header line "Axioms:" that Coq prints before the list; it is not an axiom
-    chk.axioms = {k: [a for a in v if a != "Axioms"] for k, v in chk.axioms.items()}
-    chk.broken = [b for b in chk.broken if not (str(b.get("what", "")).endswith("depends on non-stdlib axioms") and b.get("detail") == ["Axioms"])]
     C.reset_backends()
     import tensorly as tl
     from tensorly.cp_tensor import CPTensor, cp_normalize, cp_flip_sign, cp_permute_factors, cp_mode_dot, cp_to_tensor
@@ -829,7 +805,7 @@ def run(chk):
                        "each tensor carries one degenerate feature (zero column, zero-sum column, negative weight, zero weight, zero core slice, rank 1, all positive, none); every target mode (+1 invalid) "
                        "x both summary functions for cp_flip_sign; every mode (+1 invalid) x {matrix, vector, vector keep_dim, mismatching operands} x copy for the CP and Tucker mode products, each followed by a "
                        "second product on the same operand (copy=True) or on the result (copy=False); operand forms {CPTensor object, plain tuple} x {weights, None} x copy; "
-                       "pad_tt_rank on TT and TR of order 1-4 x n_padding 1-3 x both pad_boundaries values; svd_compress thresholds {0, 1e-3, .25, .5, 1} x max_rank {None, 1, n_cols, n_cols+1}; "
+                       "pad_tt_rank on TT, TR and TT-matrix cores of order 1-4 x n_padding 1-3 x both pad_boundaries values; svd_compress thresholds {0, 1e-3, .25, .5, 1} x max_rank {None, 1, n_cols, n_cols+1}; "
                        "distinct key = (function, shapes, feature, options)")
     for b in broken:
         chk.broken.append({"what": "correspondence corr:C04 shard not evaluated", "detail": b})
@@ -839,7 +815,7 @@ def run(chk):
         chk.sample({"call": [str(x) for x in m]})
     chk.assumptions = ["the represented dense tensors are defined entry-wise (cp_entry, tucker_entry, tt_entry / tr_entry, pf2_entry); tensorly's own cp_to_tensor, tucker_to_tensor, "
                        "tt_to_tensor, tr_to_tensor (order >= 2) and parafac2_to_slice are compared against these definitions on this run's integer cases",
-                       "size-0 modes, rank 0, negative mode numbers and 4-D TT-matrix cores are outside the model",
+                       "size-0 modes, rank 0, negative mode numbers and the dense form of TT-matrices are outside the model (padding of TT-matrix cores is inside)",
                        "mode products are compared at the level of the represented dense tensor and its shape (which factor absorbs a contracted vector is not part of the property); "
                        "compressed slices are compared through loading x score",
                        "floating-point rounding is outside the theorems: they are stated over an abstract commutative ring / over R; the implementation is compared with the exact model at rtol 1e-9 on quarter-integer / Gaussian data"]
@@ -848,11 +824,7 @@ def run(chk):
                    "Q R = B and, for complete answers, U diag(s) Vh = X are checked inside Coq on every case",
                    "the assignment of cp_permute_factors (scipy linear_sum_assignment) is taken from the implementation; its optimality is checked by brute force over all permutations in Python",
                    "orthonormality of PARAFAC2 projections / loadings is a Python predicate only"]
-    C.load_known = _load_known_with_snippet
-    try:
-        return chk.finish(CLASSIFIERS)
-    finally:
-        C.load_known = _orig_load_known
+    return chk.finish(CLASSIFIERS)
 
 
 def gen_tucker(rng, float_=False):
@@ -892,15 +864,16 @@ def gen_pf2(rng, R=None):
     return w, [A, B, Cm], Ps, feat
 
 
-def gen_tt(rng, ring):
-    N = rng.randint(1, 4)
-    dims = [rng.randint(1, 3) for _ in range(N)]
+def gen_tt(rng, ring, matrix=False):
+    """cores (r_i, n_i, r_{i+1}); matrix=True: TT-matrix cores (r_i, m_i, n_i, r_{i+1})"""
+    N = rng.randint(1, 3 if matrix else 4)
+    dims = [(rng.randint(1, 2), rng.randint(1, 3)) if matrix else (rng.randint(1, 3),) for _ in range(N)]
     ranks = [rng.randint(1, 3) for _ in range(N + 1)]
     if ring:
         ranks[-1] = ranks[0]
     else:
         ranks[0] = ranks[-1] = 1
-    return [rint(rng, -2, 2, (ranks[i], dims[i], ranks[i + 1])) for i in range(N)]
+    return [rint(rng, -2, 2, (ranks[i],) + dims[i] + (ranks[i + 1],)) for i in range(N)]
 
 
 def sperm(rng, n, m):
@@ -1076,8 +1049,9 @@ def run_other_formats(chk, rng, judge, mult, emit):
     # --- tt_to_tensor / tr_to_tensor, pad_tt_rank (exact): TT and TR of order 1-4
     for it in range(80 * mult):
         ring = it % 2 == 1
-        cores = gen_tt(rng, ring)
-        if not ring or len(cores) >= 2:           # tr_to_tensor on a single core is outside this property
+        ttm = it % 5 == 4                          # TT-matrix cores: padding only (their dense form is another property's business)
+        cores = gen_tt(rng, ring, matrix=ttm)
+        if not ttm and (not ring or len(cores) >= 2):   # tr_to_tensor on a single core is outside this property
             st, out = call(tr_to_tensor if ring else tt_to_tensor, cps(cores))
             exp = "(mk [99999]%nat (@nil Z))" if st != "ok" or not integral(out) else ztens(out)
             emit(lambda: f"ZTTDense {C.boolc(ring)} {ztens_list(cores)} {exp}", ("tr_to_tensor" if ring else "tt_to_tensor", sh(cores)))
@@ -1089,7 +1063,7 @@ def run_other_formats(chk, rng, judge, mult, emit):
             for pb in ((ring,) if it % 4 < 2 else (ring, not ring)):
                 st, out = call(pad_tt_rank, cps(cores), n_padding=npad, pad_boundaries=pb)
                 chk.hist("outcome", st)
-                if st == "ok" and integral(*out) and all(np.asarray(g).ndim == 3 for g in out):
+                if st == "ok" and integral(*out) and all(np.asarray(g).ndim == np.asarray(c).ndim for g, c in zip(out, cores)):
                     lit = f"(Ok {ztens_list([np.asarray(g) for g in out])})"
                 else:
                     lit = "Err" if st != "ok" else "(Ok [mk [99999]%nat (@nil Z)])"
